@@ -718,30 +718,44 @@ func allocEscapes(v *ssa.Alloc) bool {
 			}
 		case *ssa.UnOp, *ssa.DebugRef:
 		case *ssa.MakeClosure:
-			crefs := u.Referrers()
-			if crefs == nil {
-				return true
-			}
-			for _, cr := range *crefs {
-				switch cu := cr.(type) {
-				case *ssa.Defer:
-					if cu.Call.Value != ssa.Value(u) {
-						return true
-					}
-				case *ssa.Call:
-					if cu.Call.Value != ssa.Value(u) {
-						return true
-					}
-				case *ssa.DebugRef:
-				default:
-					return true
-				}
-			}
-			// the closure itself must not let the address out
 			fn, ok := u.Fn.(*ssa.Function)
 			if !ok {
 				return true
 			}
+			crefs := u.Referrers()
+			if crefs == nil {
+				return true
+			}
+			closureEscapes := false
+			for _, cr := range *crefs {
+				switch cu := cr.(type) {
+				case *ssa.Defer:
+					if cu.Call.Value != ssa.Value(u) {
+						closureEscapes = true
+					}
+				case *ssa.Call:
+					if cu.Call.Value != ssa.Value(u) {
+						closureEscapes = true
+					}
+				case *ssa.DebugRef:
+				default:
+					closureEscapes = true
+				}
+			}
+			if closureEscapes {
+				// the function literal is handed to someone else (a callee, a goroutine): the variable
+				// stays under this function's control only if the literal does nothing but read it
+				for i, b := range u.Bindings {
+					if b != ssa.Value(v) || i >= len(fn.FreeVars) {
+						continue
+					}
+					if !freeVarReadOnly(fn.FreeVars[i]) {
+						return true
+					}
+				}
+				continue
+			}
+			// the closure itself must not let the address out
 			for i, b := range u.Bindings {
 				if b != ssa.Value(v) || i >= len(fn.FreeVars) {
 					continue
@@ -755,6 +769,27 @@ func allocEscapes(v *ssa.Alloc) bool {
 		}
 	}
 	return false
+}
+
+// freeVarReadOnly: the function literal only loads the captured variable (no store to it, its
+// address goes nowhere - not even into a nested literal).
+func freeVarReadOnly(fv *ssa.FreeVar) bool {
+	refs := fv.Referrers()
+	if refs == nil {
+		return true
+	}
+	for _, r := range *refs {
+		switch u := r.(type) {
+		case *ssa.UnOp:
+			if u.Op != token.MUL {
+				return false
+			}
+		case *ssa.DebugRef:
+		default:
+			return false
+		}
+	}
+	return true
 }
 
 func freeVarEscapes(fv *ssa.FreeVar, depth int) bool {
